@@ -22,6 +22,15 @@ def split_words(name):
     return all_words
 
 
+def fmt_block_comment(text):
+    """
+    Makes text safe to be printed inside a /* ... */ comment: wherever it
+    contains the end-of-comment marker, the marker is broken up.
+        Example: 'a */ b' -> 'a *\\/ b'
+    """
+    return text.replace('*/', '*\\/')
+
+
 def fmt_camel(name):
     """
     Converts name to lower camel case. Words are identified by capitalization,
